@@ -388,9 +388,9 @@ pub fn spaces(tier: Tier) -> Vec<Space<'static>> {
         judge_text(format!("[\"x\\u{:04X}\",1]", cu).as_bytes(), acc);
     }));
     // escape sequences by surrogate class, through the text fallback: every sequence of <= 3 escapes
-    // over {first/last high surrogate, first/last low surrogate, BMP, U+FFFF, a short escape, a raw letter}
+    // over {first/last high surrogate, first/last low surrogate, BMP, U+FFFF, each of the eight short escapes, raw characters}
     {
-        const ESC: [&str; 12] = ["\\ud800", "\\uDBFF", "\\udc00", "\\uDFFF", "\\u0041", "\\uffff", "\\n", "a", "\\ud83d", "u", " ", "-"];
+        const ESC: [&str; 19] = ["\\ud800", "\\uDBFF", "\\udc00", "\\uDFFF", "\\u0041", "\\uffff", "\\n", "a", "\\ud83d", "u", " ", "-", "\\/", "\\b", "\\f", "\\r", "\\t", "\\\"", "\\\\"];
         let n = ESC.len() as u64;
         let total: u64 = (0..=3u32).map(|k| n.pow(k)).sum();
         sp.push(Space::new("text fallback: every sequence of <= 3 escapes by surrogate class, as value and as key", total, move |idx, acc| {
